@@ -7,11 +7,11 @@ import (
 	"encoding/binary"
 	"errors"
 	"fmt"
+	"io"
 	"reflect"
 	"time"
 
 	"ergo.services/ergo/gen"
-	"ergo.services/ergo/lib"
 	"ergo.services/ergo/net/edf"
 )
 
@@ -77,15 +77,21 @@ type VMarsh struct {
 	Note string
 }
 
-func (m VMarsh) MarshalEDF(b *lib.Buffer) error {
+func (m VMarsh) MarshalEDF(w io.Writer) error {
 	if m.Note == "refuse" {
 		return errors.New("VMarsh refuses")
 	}
-	buf := b.Extend(4)
-	binary.BigEndian.PutUint32(buf, m.ID)
-	b.AppendString(m.Note)
-	return nil
+	var buf [4]byte
+	binary.BigEndian.PutUint32(buf[:], m.ID)
+	w.Write(buf[:])
+	_, err := w.Write([]byte(m.Note))
+	return err
 }
+
+var _ edf.Marshaler = VMarsh{}
+var _ edf.Marshaler = VZeroM{}
+var _ edf.Unmarshaler = (*VMarsh)(nil)
+var _ edf.Unmarshaler = (*VZeroM)(nil)
 
 func (m *VMarsh) UnmarshalEDF(data []byte) error {
 	if len(data) < 4 {
@@ -117,6 +123,24 @@ func (m *VBin) UnmarshalBinary(data []byte) error {
 	return nil
 }
 
+// VEmpty is a registered zero-size type: it takes no bytes on the wire.
+type VEmpty struct{}
+
+// VZeroM is a zero-size type with a custom marshaler: it does take bytes on the wire.
+type VZeroM struct{}
+
+func (VZeroM) MarshalEDF(w io.Writer) error {
+	_, err := w.Write([]byte{0xab, 0xcd})
+	return err
+}
+
+func (*VZeroM) UnmarshalEDF(data []byte) error {
+	if len(data) != 2 || data[0] != 0xab || data[1] != 0xcd {
+		return errors.New("VZeroM: bad data")
+	}
+	return nil
+}
+
 // VUnreg is deliberately NOT registered: the encoder must refuse it.
 type VUnreg struct{ A int }
 
@@ -138,7 +162,7 @@ func init() {
 	for _, v := range []any{
 		VInt(0), VUint64(0), VStr(""), VFloat(0), VBool(false),
 		VSliceS{}, VSliceAny{}, VMap{}, VMapAny{}, VArr{}, VArrS{},
-		VInner{}, VStruct{}, VPair{}, VMarsh{}, VBin{},
+		VInner{}, VStruct{}, VPair{}, VMarsh{}, VBin{}, VEmpty{}, VZeroM{},
 	} {
 		if err := edf.RegisterTypeOf(v); err != nil && err != gen.ErrTaken {
 			panic(fmt.Sprintf("edfgen: register %T: %v", v, err))
@@ -177,7 +201,7 @@ var leafTypes = []reflect.Type{
 	reflect.TypeOf(VBool(false)), reflect.TypeOf(VSliceS{}), reflect.TypeOf(VSliceAny{}),
 	reflect.TypeOf(VMap{}), reflect.TypeOf(VMapAny{}), reflect.TypeOf(VArr{}), reflect.TypeOf(VArrS{}),
 	reflect.TypeOf(VInner{}), reflect.TypeOf(VStruct{}), reflect.TypeOf(VPair{}),
-	reflect.TypeOf(VMarsh{}), reflect.TypeOf(VBin{}),
+	reflect.TypeOf(VMarsh{}), reflect.TypeOf(VBin{}), reflect.TypeOf(VEmpty{}), reflect.TypeOf(VZeroM{}),
 	// framework-registered types
 	reflect.TypeOf(gen.Version{}), reflect.TypeOf(gen.MessageEvent{}), reflect.TypeOf(gen.LogLevel(0)),
 	reflect.TypeOf(gen.Env("")), reflect.TypeOf(gen.Compression{}), reflect.TypeOf(gen.ProcessFallback{}),
